@@ -1,6 +1,7 @@
 package lmd
 
 import (
+	"bufio"
 	"context"
 	"errors"
 	"fmt"
@@ -89,6 +90,8 @@ func (cl *ClientConnection) Handle() {
 // answer handles a single client connection.
 // It returns any error encountered.
 func (cl *ClientConnection) answer(ctx context.Context) error {
+	// one reader for the whole connection: a keepalive client may have sent the next request already
+	reader := bufio.NewReader(cl.connection)
 	for {
 		if !cl.keepAlive {
 			promFrontendConnections.WithLabelValues(cl.localAddr).Inc()
@@ -96,7 +99,7 @@ func (cl *ClientConnection) answer(ctx context.Context) error {
 			LogErrors(cl.connection.SetDeadline(time.Now().Add(RequestReadTimeout)))
 		}
 
-		reqs, err := ParseRequests(ctx, cl.lmd, cl.connection)
+		reqs, err := ParseRequests(ctx, cl.lmd, cl.connection, reader)
 		if err != nil {
 			return cl.sendErrorResponse(err)
 		}
